@@ -27,6 +27,11 @@
 
 std::string OPN2MIDI_ErrorString;
 
+#ifdef OPNMIDI_VERIF
+__thread opnmidi_verif_tap_fn opnmidi_verif_tap = NULL;
+__thread opnmidi_verif_frames_fn opnmidi_verif_frames = NULL;
+#endif
+
 // Generator callback on audio rate ticks
 
 #if defined(ADLMIDI_AUDIO_TICK_HANDLER)
